@@ -249,3 +249,37 @@ Proof.
   intros m args st lim H. unfold partial_body, partial_after_mint.
   destruct m; simpl in H; try discriminate; split; reflexivity.
 Qed.
+
+(* ------------------------------------------------------------------ answers of contracts the precompile calls *)
+
+(** Seeded change "revert panic payload short slice": evm.NewRevertError reads revertReason[4:36] behind the
+    Panic(uint256) selector without a length check; FunToken.balance on a FunToken whose registered ERC20 reverts
+    balanceOf with the bare 4-byte selector panics — also from a STATICCALL *)
+Lemma no_panic_refuted_unguarded_revert_decoder :
+  exists k inp, input_wf inp = true /\
+    r_out (evm_call Z hostile_token_body sample_after_mint sample_transfer (with_revert_decode reference_facts false)
+             PFunToken k 0 1000000 inp 0) = Panic.
+Proof. exists KStatic, balance_call. vm_compute. split; reflexivity. Qed.
+
+(** with the total decoder the same call is an ordinary failed sub-call, charged and reverted *)
+Example nonvacuous_hostile_token_fails_closed :
+  let r := evm_call Z hostile_token_body sample_after_mint sample_transfer reference_facts PFunToken KStatic 0 1000000 balance_call 0 in
+  r_out r = Err /\ r_left r = 0 /\ r_st r = 0.
+Proof. vm_compute. repeat split; reflexivity. Qed.
+
+(** the unguarded decoder panics exactly on Panic-prefixed revert data whose capacity is below 36 bytes *)
+Example revert_decode_panics_window :
+  let F := with_revert_decode reference_facts false in
+  revert_decode_panics F NRevert [] 0 = false /\
+  revert_decode_panics F NRevert [78; 72; 123] 32 = false /\
+  revert_decode_panics F NRevert panic_selector 4 = true /\
+  revert_decode_panics F NRevert panic_selector 32 = true /\
+  revert_decode_panics F NRevert (panic_selector ++ repeat 0 28) 32 = true /\
+  revert_decode_panics F NRevert (panic_selector ++ repeat 0 31) 35 = true /\
+  revert_decode_panics F NRevert (panic_selector ++ repeat 0 31) 64 = false /\
+  revert_decode_panics F NRevert panic_selector 96 = false /\
+  revert_decode_panics F NRevert (panic_selector ++ repeat 0 32) 36 = false /\
+  revert_decode_panics F NRevert [8; 195; 121; 160] 4 = false /\
+  revert_decode_panics F NOutOfGas panic_selector 4 = false /\
+  revert_decode_panics reference_facts NRevert panic_selector 4 = false.
+Proof. vm_compute. repeat split; reflexivity. Qed.
